@@ -122,19 +122,30 @@ def run(rep, tier, seed, replay, unordered=UNORDERED, pid=PID):
     for _ in range(nr):
         cfg = GG.random_cfg(rnd, unordered=unordered)
         qs = [(rnd.choice(["counter", "gauge", "observer"]), GG.random_name(rnd)) for _ in range(30)]
-        rcases.append(GM.case_line("none", 0, [GM.load_op(cfg)] + [GM.query_op(t, n) for t, n in qs]))
-        rmeta.append((cfg, qs))
+        # a third of the configurations arrive by reload on a mapper that held another one: the answer is the new configuration's alone
+        before = [GM.load_op(GG.random_cfg(rnd, unordered=unordered))] if rnd.random() < 0.33 else []
+        rcases.append(GM.case_line("none", 0, before + [GM.load_op(cfg)] + [GM.query_op(t, n) for t, n in qs]))
+        rmeta.append((cfg, qs, len(before)))
+    if not replay:
+        import props.c14 as c14
+        for steps, probes in c14.resplit_pairs():
+            # the rule boundary moves while the concatenated match strings stay the same
+            if (steps[0][0][0] is not None) != bool(unordered):
+                continue
+            qs = [(t, n) for n in probes for t in ("counter", "gauge", "observer")]
+            rcases.append(GM.case_line("none", 0, [GM.load_op(steps[0][0]), GM.load_op(steps[1][0])] + [GM.query_op(t, n) for t, n in qs]))
+            rmeta.append((steps[1][0], qs, 1))
     rimpl, rmodel = ME.run_cases(pid, rcases, tag="random")
-    rep.count(nr * 30)
-    for (cfg, qs), i, m in zip(rmeta, rimpl, rmodel):
+    rep.count(sum(len(x[1]) for x in rmeta))
+    for (cfg, qs, nb), i, m in zip(rmeta, rimpl, rmodel):
         rep.nontrivial(GM.to_yaml(cfg))
         if i != m:
             nbad += 1
             k = next((k for k in range(min(len(i), len(m))) if i[k] != m[k]), 0)
             if len(rep.violations) < 5:
-                q = qs[k - 1] if k >= 1 else None
+                q = qs[k - 1 - nb] if k >= 1 + nb else None
                 rep.violation("implementation differs from the proved model (mapper engine, random config)",
-                              dict(yaml=GM.to_yaml(cfg), query=[q[0], q[1].decode("latin1")] if q else None, impl=i[k], model=m[k]),
+                              dict(yaml=GM.to_yaml(cfg), loaded_over_another_configuration=bool(nb), query=[q[0], q[1].decode("latin1")] if q else None, impl=i[k], model=m[k]),
                               no_input=True)
     # sizes outside the small alphabets: rules of 8-200 components, 300 rules in one configuration, 300-byte components
     scases, smeta = [], []
@@ -147,6 +158,16 @@ def run(rep, tier, seed, replay, unordered=UNORDERED, pid=PID):
             qs = [b".".join(pre + [b"leaf"]), b".".join(pre + [b"other"]), b"short.x", b".".join([b"q"] * n), b".".join(pre), b".".join(pre + [b"a", b"b"])]
             scases.append(GM.case_line("none", 0, [GM.load_op(cfg)] + [GM.query_op(t, q) for q in qs for t in ("counter", "observer")]))
             smeta.append("rules of %d components" % n)
+    # a staircase: rule k equals the metric except for a wildcard at position k (deepest first, the all-literal rule last):
+    # the search has one alternative pending per level of the metric
+    for n in (3, 8, 33, 64, 65, 70, 130):
+        rules = [GM.rule(b".".join([b"s"] * k + [b"*"] + [b"s"] * (n - k - 1)), b"stair_%d" % k, help=b"r%d" % (n - 1 - k), labels=[(b"c1", b"$1")]) for k in range(n - 1, -1, -1)]
+        rules.append(GM.rule(b".".join([b"s"] * n), b"literal", help=b"r%d" % n))
+        for order in (rules, rules[::-1]):
+            cfg = (GM.defaults(disable_ordering=True) if unordered else None, [dict(r) for r in order])
+            qs = [b".".join([b"s"] * n), b".".join([b"s"] * (n - 1) + [b"x"]), b".".join([b"x"] + [b"s"] * (n - 1)), b".".join([b"s"] * (n // 2) + [b"x"] + [b"s"] * (n - n // 2 - 1))]
+            scases.append(GM.case_line("none", 0, [GM.load_op(cfg)] + [GM.query_op(t, q) for q in qs for t in ("counter", "gauge")]))
+            smeta.append("a staircase of %d rules" % (n + 1))
     many = [GM.rule(b"m%d.*" % k, b"many_%d_$1" % k, help=b"r%d" % k) for k in range(300)]
     scases.append(GM.case_line("lru", 50, [GM.load_op((GM.defaults(disable_ordering=True) if unordered else None, many))] +
                                [GM.query_op("counter", b"m%d.x%d" % (k, k)) for k in list(range(0, 300, 7)) * 2] + [GM.query_op("gauge", b"m300.x")]))
